@@ -497,6 +497,13 @@ class Observer:
         for e in new_errs:
             if e['event'].startswith('job') and not label.startswith('dup'):
                 self.fail('C01', 'internal-error-in-job:%s' % e['type'], '%s inside scheduler job on %s: %s' % (e['type'], label, e['msg'][:120]))
+        # C06: a redelivered message leaves the run as the single delivery did: no new task or action
+        # execution, no state change (pending refresh scheduling aside)
+        if label.startswith('dup:') and self.prev is not None:
+            if (wf, tasks, acts) != (self.prev[0], self.prev[2], self.prev[3]):
+                kind = label[4:6]
+                self.fail('C06', 'duplicate-changed-state:%s' % kind,
+                          'redelivered %s changed the run: %s -> %s' % (label[4:], (self.prev[0], self.prev[2], self.prev[3]), (wf, tasks, acts)))
         # C01: a post-commit operation that raised was logged and swallowed = a lost message
         new_sw = self.d.swallowed[self.sw_seen:]
         self.sw_seen = len(self.d.swallowed)
